@@ -412,6 +412,14 @@ def body(ctx, replay=None):
                     c["exclude-interface-regex"] = exc[d]
                 pk[d] = c
             cases.append({"kind": "tree", "i": 9500 + j, "dirs": rdirs, "pkcfg": pk, "excl_root": None, "root_recursive": False})
+        # fixed trees: a recursive package nested under another one, next to a sibling whose directory name merely extends its name
+        pdirs = {"t": "go", "t/store": "go", "t/store/sub": "go", "t/storetest": "go", "t/storetest/deep": "go", "t/sto": "go"}
+        for j, (inner_cfg, outer_excl) in enumerate((({"recursive": True, "all": True, "structname": "R1_{{.InterfaceName}}"}, None),
+                                                      ({"recursive": True, "all": True, "structname": "R1_{{.InterfaceName}}", "exclude-subpkg-regex": ["sub$"]}, ["storetest$"]))):
+            outer = {"recursive": True, "include-interface-regex": "^Svc", "structname": "R0_{{.InterfaceName}}"}
+            if outer_excl:
+                outer["exclude-subpkg-regex"] = outer_excl
+            cases.append({"kind": "tree", "i": 9600 + j, "dirs": pdirs, "pkcfg": {"t": outer, "t/store": inner_cfg}, "excl_root": None, "root_recursive": False})
         # fixed trees: every entry of an exclusion list is its own expression (flags, anchors and alternations do not reach the neighbours)
         fdirs = {"t": "go", "t/svc0": "go", "t/svc0/internal0": "go", "t/svc0/core0": "go", "t/svc0/api0": "go", "t/svc0/api0/gen0": "go", "t/lib0": "go", "t/lib0/util0": "go", "t/lib0/mocks0": "go"}
         for j, lst in enumerate([["(?i)/INTERNAL", "/CORE"], ["(?i)zzz", "/API", "UTIL"], ["/CORE", "(?i)/INTERNAL"], ["^internal0", "core0$"], ["api0$", "^example.com/m/t/lib0/u"], ["(?i)/MOCKS", "/Core0", "/gen0$"]]):
